@@ -103,6 +103,20 @@ META["C08"] = dict(
   note="Trusted base: /verif/fakehdf5 (about 500 lines, selection logic self-checked against nested loops in the same run). Not covered: the real libhdf5 ABI.",
   technique="model-based property testing (rapid) over an HDF5 stand-in, exhaustive enumeration of selection helpers, lock-state probe, race detector")
 
+META["C03"]["text"] = "Differential property tests: (a) the C01/C02 generated cases run on both back-ends with every observation compared, the C buffer guarded by canaries and inaccessible pages so that an out-of-buffer access faults or is seen; (b) generated RunSingleModel calls, in-process with C argument types and through the real C ABI of a freshly built libopenwater.so driven by a C program that owns guard-paged buffers, compared bit-for-bit with the Go API run. Exploration."
+META["C03"]["note"] = "Trusted: the mmap/mprotect guard set-up (Go side and /verif/cdriver/driver.c); writes through slices returned by Unroll are excluded from the lock-step (C views unroll to copies by design)."
+META["C03"]["technique"] = "differential property-based testing (rapid): Go vs C back-end in lock-step, C ABI vs Go API, with guard pages and canaries"
+META["C05"] = dict(
+  text="Monitored execution of generated cases under the Go race detector: the goroutine-per-cell Run of every catalogued model with many cells, and the goroutine-per-model generations plus asynchronous writer of ow-sim over the HDF5 stand-in, with GOMAXPROCS variation, repetition and injected delays, each repetition compared bit-for-bit with the sequential reference. Exploration of schedules, not enumeration.",
+  design_ref="DESIGN.md section 4, C05 and section 6",
+  note="A race report halts the test binary; the case being run is recovered from the write-ahead file. The race detector sees only the executions that happened.",
+  technique="property-based testing (rapid) under the Go race detector with schedule perturbation (GOMAXPROCS, injected delays) and a sequential differential oracle")
+META["C07"] = dict(
+  text="Differential property test of the real run_simulation (sources mapped in by -overlay, run in-process over the HDF5 stand-in) against an independent sequential interpreter on generated model graphs, output selections and file layouts, bit-for-bit on every row of every written dataset, plus an exactly-once / right-offset audit of the writer from the stand-in's call log, with delays injected around the writer hand-off. Exploration.",
+  design_ref="DESIGN.md section 4, C07",
+  note="Trusted base: the HDF5 stand-in and the single-cell catalogue path (C04). Not covered: the -outputs split-writer sub-process and the protobuf stream.",
+  technique="differential property-based testing (rapid): ow-sim vs sequential reference interpreter, with call-log audit and delay injection")
+
 import os, sys
 sys.path.insert(0, os.path.dirname(os.path.abspath(__file__)))
 from checks_config import CHECKS
